@@ -18,3 +18,31 @@ package base
 
 //@ global NilHeight const
 //@ global GenesisHeight const
+
+// ---- C01: vote tally ------------------------------------------------------------
+
+//@ spec func nonneg(x int) int = ite(x < 0, 0, x)
+//@ spec func sumfrom(a intarr, i int, n int) int = ite(i >= n, 0, nonneg(a[i]) + sumfrom(a, i+1, n))
+//@ spec func total(a intarr, off int, n int) int = sumfrom(a, off, off+n)
+//@ spec func minu(a int, b int) int = ite(a < b, a, b)
+//@ spec func missing(q int, s int) int = ite(q > s, q - s, 0)
+//@ axiom sumfrom_nonneg (A11): forall(intarr(a), i, n, trigger(sumfrom(a, i, n)), sumfrom(a, i, n) >= 0)
+//@ lemma sumfrom_nonneg_step (C01): forall(intarr(a), i, n, unfold(sumfrom(a, i, n)) && sumfrom(a, i+1, n) >= 0 ==> sumfrom(a, i, n) >= 0)
+
+//@ func FindMajority
+//@   prop C01
+//@   requires total(elems(set), soff(set), len(set)) < 9223372036854775808
+//@   requires quorum < 9223372036854775808
+//@   modifies set[*]
+//@   loop 0 invariant -1 <= rangeindex && rangeindex < len(set)
+//@   loop 0 invariant sum + sumfrom(elems(set), soff(set)+rangeindex+1, soff(set)+len(set)) == total(elems(set), soff(set), len(set))
+//@   loop 0 invariant forall(k, 0 <= k && k <= rangeindex ==> set[k] < th)
+//@   loop 0 hint unfold(sumfrom(elems(set), soff(set)+rangeindex+1, soff(set)+len(set)))
+//@   loop 0 decreases len(set) - rangeindex
+//@   ensures [local-sum] r0 < 0 && len(set) > 0 ==> sum == total(old(elems(set)), soff(set), len(set))
+//@   ensures [range] r0 == -2 || r0 == -1 || (0 <= r0 && r0 < len(set))
+//@   ensures [empty] len(set) == 0 ==> r0 == -1
+//@   ensures [majority-sound] r0 >= 0 ==> old(set[r0]) >= minu(threshold, quorum)
+//@   ensures [majority-complete] forall(i, 0 <= i && i < len(set) && old(set[i]) >= minu(threshold, quorum) ==> r0 >= 0)
+//@   ensures [draw-sound] r0 == -2 ==> forall(i, 0 <= i && i < len(set) ==> old(set[i]) + missing(quorum, total(old(elems(set)), soff(set), len(set))) < minu(threshold, quorum))
+//@   ensures [draw-complete] len(set) > 0 && forall(i, 0 <= i && i < len(set) ==> old(set[i]) + missing(quorum, total(old(elems(set)), soff(set), len(set))) < minu(threshold, quorum)) ==> r0 == -2
